@@ -33,7 +33,9 @@ def build_and_run(cell, inputs, scratch, out):
     if not os.path.exists(src):
         out.append("replay template %s missing" % src)
         return False
-    defs = ["-D%s=%s" % (k, v) if v is not None else "-D%s" % k for k, v in cell.defines.items()]
+    defs = ["-D%s=%s" % (k, v) if v is not None else "-D%s" % k for k, v in cell.defines.items() if k != "HAVE_BMI2"]
+    if "HAVE_BMI2" in cell.defines:
+        defs.append("-mbmi2")   # morton.hpp defines HAVE_BMI2 itself from __BMI2__
     argv = ["%s=%s" % (norm_name(k), v["binary"]) for k, v in sorted(inputs.items()) if v.get("binary")]
     confirmed = False
     for flavour, cxx, flags in (("debug+ubsan(clang++)", "clang++", ["-O0", "-g", "-fsanitize=undefined", "-fno-sanitize-recover=all"]),
